@@ -773,6 +773,13 @@ class Model:
                         else:
                             raise TypeError('Incorrect data type.')
                         row_ind = i*num_rand + np.arange(num_rand, dtype=int)
+                        if isinstance(drule, RoAffine):
+                            col_ind = np.unique(raffine.linear[row_ind].indices)
+                            col_ind = col_ind[col_ind < num_var]
+                            if len(col_ind) > 0:
+                                if (drule.raffine[col_ind].linear.nnz > 0 or
+                                        np.any(drule.raffine[col_ind].const)):
+                                    raise SyntaxError('Incorrect affine expressions.')
                         new_raffine = raffine.linear[row_ind] @ temp
                         new_raffine = new_raffine.reshape((1, new_raffine.size))
                         new_raffine += raffine.const[i, :num_rand] + extra
